@@ -134,6 +134,9 @@ func isSpecial(t reflect.Type) bool {
 }
 
 func fmtFloat(f float64, bits int) string {
+	if f == 0 {
+		return "0" // -0 and 0 are one value
+	}
 	return strconv.FormatFloat(f, 'f', -1, bits)
 }
 
